@@ -198,9 +198,13 @@ impl EmmyLuaAnalysis {
                 }
             }
         }
-        self.compilation
-            .remove_index(removed_files.into_iter().collect());
-        let updated_files: Vec<FileId> = updated_files.into_iter().collect();
+        let mut removed_files: Vec<FileId> = removed_files.into_iter().collect();
+        removed_files.sort();
+        self.compilation.remove_index(removed_files);
+        // file ids are allocated in registration order; sort them so that the analysis order
+        // does not depend on the hash set's (randomly seeded) iteration order
+        let mut updated_files: Vec<FileId> = updated_files.into_iter().collect();
+        updated_files.sort();
         self.compilation.update_index(updated_files.clone());
         updated_files
     }
